@@ -440,12 +440,12 @@ fn run_scenario(w: &World, sc: &Value, run: u64) -> Vec<Value> {
         let r = 0usize;
         let (genuine, sg) = w.register(&bases[r]);
         let ctl = res_str(&guarded(|| SignedRegister::new(genuine.clone(), sg.clone(), BTreeSet::new()).verify()));
-        let gbytes = genuine.bytes().expect("register bytes");
         let set: BTreeSet<RegisterOp> = pool_spec.iter().enumerate()
             .filter(|(_, o)| o["sigOk"].as_bool().unwrap_or(false) && !o["big"].as_bool().unwrap_or(false) && us(&o["addr"]) == us(&bases[r]["addr"]))
             .take(4).map(|(i, _)| p.ops[i].clone()).collect();
         for (kind, alt) in w.altered_bases(&bases[r]) {
-            let differs = alt.bytes().map(|b| b != gbytes).unwrap_or(true);
+            // structural comparison, NOT Register::bytes(): whether the signed bytes cover what was altered is the question
+            let differs = alt != genuine;
             let crafted = SignedRegister::new(alt.clone(), sg.clone(), set.clone());
             let ver = guarded(|| crafted.verify());
             // verify_with_address = address comparison + verify(): once per scenario, where the address is what was altered
